@@ -1378,12 +1378,12 @@ expr0:
                         if (t3 == TYPE_FUNCTION) {
                             yyerror("Bad right argument to '+' (function)");
                             result_type = TYPE_ANY;
-                        } else result_type = t3;
+                        } else result_type = (t3 == TYPE_STRING) ? TYPE_STRING : TYPE_ANY; /* mixed + int may well be a string */
                     } else if (t3 == TYPE_ANY) {
                         if (t1 == TYPE_FUNCTION) {
                             yyerror("Bad left argument to '+' (function)");
                             result_type = TYPE_ANY;
-                        } else result_type = t1;
+                        } else result_type = (t1 == TYPE_STRING) ? TYPE_STRING : TYPE_ANY; /* int + mixed may well be a string */
                     } else {
                         switch(t1) {
                             case TYPE_STRING:
